@@ -36,6 +36,8 @@ def run(chk: Check) -> None:
     from_protobuf_cache(chk, "R09.1")
     nb = lookup_bindings(chk, "R09.1")
     chk.floor("R09.1", "decoders handed a lookup callable", nb, 2)
+    from .loader import deferred_stage
+    deferred_stage(chk, "R09.2")
     n = stage_order(chk, "R09.2")
     chk.floor("R09.2", "consumer stages", n, 6)
     own = ownership(chk.repo)
